@@ -96,6 +96,8 @@ func main() {
 		gcp = v
 	}
 	debug.SetGCPercent(gcp)
+	// unbounded recursion (known finding D7) should die quickly instead of eating a gigabyte
+	debug.SetMaxStack(48 << 20)
 	if pf := os.Getenv("VERIF_PPROF"); pf != "" {
 		fh, _ := os.Create(pf)
 		pprof.StartCPUProfile(fh)
